@@ -133,6 +133,21 @@ NEEDS = {
  "R5-C08-a": ("hrevolve.py: uses_storage_type(DISK) scans the operation list, which _iterator clears before the final EndReverse", "an observer read AFTER exhaustion: DiskRevolve(12,1) reports DISK unused [C11]"),
  "R5-C08-b": ("hrevolve_sequences/hrevolve.py hrevolve_recurse l==1 leaf writes to level K", "one RAM unit, cheap disk, particular n: HRevolve(7,1,1,wd=1,rd=1) holds 2 DISK checkpoints with budget 1 [C03]"),
  "R5-C07-b": ("schedule.py finalize: n < 1 check moved inside the max_n-unknown branch", "finalize(0) on a finalised/offline schedule raises RuntimeError instead of ValueError [C10]"),
+ # ---- round 6 (ids R6-<slot>-a/b): second control round - all 120 earlier ideas listed as taken
+ "R6-C09-a": ("hrevolve.py _iterator: `_snapshots_on_disk` re-used as a free-slot counter", "finite disk that fills up, observer read at that moment: HRevolve(6,1,1) uses_storage_type(DISK) False after action 0 [C11]"),
+ "R6-C09-b": ("hrevolve.py uses_storage_type: one boolean expression without parentheses", "unlimited-disk class queried with WORK/NONE: TypeError (None > 0) [C11]"),
+ "R6-C10-a": ("multistage.py __init__: joint clamp of disk units before the RAM clamp", "snapshots_in_ram >= max_n with disk >= 1: Multistage(3,3,2) 6 forward steps, stream differs from the (0,5) split [C14]"),
+ "R6-C10-b": ("hrevolve_sequences/hrevolve.py hrevolve_aux: left sub-problem given cvect[K] disk slots instead of cmem", ">= 2 disk units, nested disk checkpoints: HRevolve(25,1,2,wd=1,rd=1) holds 3 [C03]"),
+ "R6-C11-a": ("mixed.py tabulation: argmin + walk right over equal values", "numba path, non-contiguous minimisers: Mixed(12,3) step 5 vs 7 [C16]"),
+ "R6-C11-b": ("mixed.py tabulation: argument check `s < 1`", "numba path, max_n == 1: ValueError instead of a stream [C16]"),
+ "R6-C12-a": ("schedule.py CheckpointAction: __hash__ added, __eq__ fast path `hash(self) == hash(other) or ...`", "Forward ending at sys.maxsize equals Forward ending at 3 (hash modulo 2**61-1) [C18]"),
+ "R6-C12-b": ("schedule.py: shared _StepRange mixin iterates ascending", "Reverse of >= 2 steps (SingleMemory): list(rev) ascending [C18]"),
+ "R6-C13-a": ("periodic_disk_revolve.py mxrr_close_formula: search starts at t = 1", "wd + rd < uf: Periodic(12,1,uf=3,wd=1,rd=1) period 2 instead of 1 [C19]"),
+ "R6-C13-b": ("periodic_disk_revolve.py: I/O ratio rounded to whole steps", "non-integer ratio that rounds up onto beta(cm+1,t): Periodic(15,1,uf=2,wd=5,rd=6) [C19]"),
+ "R6-C15-a": ("schedule.py is_running: `self._n > 0 or self._r > 0`", "step-0 checkpoint loaded while r == 0: SingleDisk(copy) after EndReverse, TwoLevel with max_n <= period [C09]"),
+ "R6-C15-b": ("twolevel_binomial.py: reload skipped `if self._n != cp_n`", "period 1, finalize(2), second pass: Copy(1, DISK, WORK) missing [C09]"),
+ "R6-C16-a": ("hrevolve.py: operation list from an lru_cache'd helper + `_schedule.clear()` before EndReverse", "two HRevolve objects with equal parameters in one process: the second emits only EndReverse [C15]"),
+ "R6-C16-b": ("hrevolve.py __init__: asserts replaced by `ram + (disk or 0) < 1`", "HRevolve(2,0,d>=1) accepted, emits a stream with a RAM write against budget 0 [C17]"),
 
 }
 
